@@ -29,6 +29,10 @@ def run(res, only=None):
     for a, b in pairs:
         for tag in ("pairs", "sim"):
             core.same_bits(res, os.path.join(wd, f"{tag}.{a}.json.trace"), os.path.join(wd, f"{tag}.{b}.json.trace"), a, b)
+    # (4) extrapolating slerp (integer factors up to 12 steps outside [0, 1]) keeps its documented postcondition -- a unit quaternion at the
+    #     documented angle -- in the builds with and without the assertions: Trace_Rel's Chebyshev relation on recorded calls
+    core.record_and_validate(res, "rel", [c for c in dict.fromkeys(cfgs) if c in ("sse2", "assert", "scalar", "assert-scalar")], draws=4 if res.tier == "quick" else 40,
+                             module="Trace_Rel", chunks=2 if res.tier == "quick" else 6, expect_kinds=("rel",), ops=["slerp_int"])
     res.rule = ("110 precondition-carrying operations over typed registers (unit vectors, unit quaternions, rotation / rigid / TRS matrices, rigid "
                 "affines, f64 mirror) and 12 documented violations (table tools/gen_c20.py shared by specification and harness): every "
                 "two-step chain from 3 (quick) / 8 (thorough) seeded off-lattice register files, and TLC-simulated chains of length 12; after "
